@@ -1,6 +1,7 @@
 package c04
 
 import (
+	"runtime/debug"
 	"context"
 	"crypto/sha256"
 	"encoding/hex"
@@ -248,7 +249,29 @@ func TestCheck(t *testing.T) {
 				runTerminated(r, tb, i, g, big)
 			}
 		})
+		// second phase: request body + immediate large reply (see runBodyThenBigReply)
+		m := r.N(1500, 8000)
+		if v := os.Getenv("C04_GC"); v != "" {
+			var pc int
+			fmt.Sscan(v, &pc)
+			old := debug.SetGCPercent(pc)
+			defer debug.SetGCPercent(old)
+		}
+		w2 := workers
+		if v := os.Getenv("C04_W2"); v != "" {
+			fmt.Sscan(v, &w2)
+		}
+		r.Parallel(m, w2, func(j int, g *vkit.Rand) {
+			i := n + j
+			if only >= 0 && i != only {
+				return
+			}
+			tb := <-pool
+			defer func() { pool <- tb }()
+			runBodyThenBigReply(r, tb, i, g)
+		})
 		if only < 0 {
+			r.Require(r.Counter("body_then_big_reply_exchanges") == int64(m), "the request-body + large-reply phase did not run")
 			r.Require(r.Counter("forwarded_judged") >= int64(n/2), "too few forwarded exchanges were judged")
 			for _, c := range termClasses {
 				r.Require(r.Counter("terminated_"+c) >= int64(n/150), "too few terminated requests of class "+c)
@@ -272,6 +295,9 @@ func witness(i int, x *Exchange, resp *bed.RawResponse, seen *seenUp, extra map[
 		"client_body_len": len(resp.Body), "client_body_prefix": fmt.Sprintf("%.200q", resp.Body), "client_body_suffix": fmt.Sprintf("%q", resp.Body[max0(len(resp.Body)-300):])}
 	if resp.Err != nil {
 		w["client_error"] = resp.Err.Error()
+	}
+	if resp.BodyErr != nil {
+		w["client_body_error"] = resp.BodyErr.Error()
 	}
 	if seen != nil {
 		w["upstream_received_target"] = seen.Target
@@ -312,9 +338,21 @@ func fromH2(s bed.Seen) seenUp {
 	return u
 }
 
+// runBodyThenBigReply: a request with a fixed-length body answered at once with a large reply. On this shape the relay
+// races with net/http's own handling of the request body (the server closes it on the first response byte while the
+// transport still owns it); the phase exists so that the outcome does not depend on luck in the mixed workload.
+func runBodyThenBigReply(r *vkit.R, tb *testbed, i int, g *vkit.Rand) {
+	r.Count("body_then_big_reply_exchanges", 1)
+	runForwardedShape(r, tb, i, g, true, false, true)
+}
+
 func runForwarded(r *vkit.R, tb *testbed, i int, g *vkit.Rand, big bool, upgrade bool) {
+	runForwardedShape(r, tb, i, g, big, upgrade, false)
+}
+
+func runForwardedShape(r *vkit.R, tb *testbed, i int, g *vkit.Rand, big bool, upgrade bool, bodyThenBig bool) {
 	id := fmt.Sprintf("c04-%d", i)
-	overH2 := tb.h2 != nil && !upgrade && g.Chance(0.25)
+	overH2 := tb.h2 != nil && !upgrade && !bodyThenBig && g.Chance(0.25)
 	host := tb.hFwd
 	if overH2 {
 		host = tb.hH2
@@ -326,6 +364,35 @@ func runForwarded(r *vkit.R, tb *testbed, i int, g *vkit.Rand, big bool, upgrade
 		x = genRequest(g, id, host, big, "")
 		x.Class = "forwarded"
 		genReply(g, x, big)
+		if bodyThenBig {
+			x.Class = "forwarded-body-then-big-reply"
+			x.Req.Method = g.Pick([]string{"POST", "PUT", "PATCH"})
+			x.Req.Body, x.Req.Chunked, x.Req.SendCL = g.Bytes(g.Range(1, 3000)), false, true
+			x.ReqBody = len(x.Req.Body)
+			if os.Getenv("C04_MIN") != "" {
+				x.Req.Headers = nil
+				x.connNamed = map[string]bool{}
+				x.ClientAE = false
+				x.Req.Target = "/apis/x/v1/y"
+				x.HostileQ = ""
+			}
+			x.Gzip, x.PlainBody = false, nil
+			var hs []bed.RawHeader
+			for _, h := range x.Reply.Headers {
+				if !strings.EqualFold(h.Name, "Content-Encoding") {
+					hs = append(hs, h)
+				}
+			}
+			x.Reply.Headers = hs
+			x.Reply.Status = g.PickInt([]int{200, 201, 409, 500})
+			lo, hi := 150000, 400000
+			if v := os.Getenv("C04_SZ"); v != "" {
+				fmt.Sscan(v, &lo, &hi)
+			}
+			x.Reply.Body = g.Bytes(g.Range(lo, hi))
+			x.ReplyBody = len(x.Reply.Body)
+			x.Reply.Framing, x.Reply.ChunkSize, x.Reply.Trailers = g.Pick([]string{"cl", "chunked", "close"}), 0, nil
+		}
 		if overH2 {
 			x.Class = "forwarded-h2"
 			normalizeForNetHTTPStub(x)
@@ -464,7 +531,11 @@ func runForwarded(r *vkit.R, tb *testbed, i int, g *vkit.Rand, big bool, upgrade
 		wantBody = nil
 	}
 	r.Count("response_body_bytes", len(wantBody))
-	ds = append(ds, compareBody("response-body", wantBody, resp.Body)...)
+	bd := compareBody("response-body", wantBody, resp.Body)
+	if len(bd) == 0 && resp.BodyErr != nil {
+		bd = []diff{{"response-body/framing-broken", fmt.Sprintf("the response body arrived complete but its framing is broken: %v", resp.BodyErr)}}
+	}
+	ds = append(ds, bd...)
 	ds = append(ds, compareResponseHeaders(x, x.Req.Method, resp.RawHeaders, decoded)...)
 	if x.Req.Method != "HEAD" {
 		for _, tr := range x.Reply.Trailers {
